@@ -21,7 +21,7 @@ def run_tdvp(repo, which, d, steps, dtype='complex', capped=False):
             return sc.call(f'{ODE}.tdvp1site', Hop, x, H, steps)
         mr = sc.atom('rho', free=True) if capped else math.inf
         if which == 'tdvp2site':
-            return sc.call(f'{ODE}.tdvp2site', Hop, x, H, steps, threshold=1e-10 if capped else 0, max_rank=mr)
+            return sc.call(f'{ODE}.tdvp2site', Hop, x, H, steps, threshold=1e-10 if capped is True else 0, max_rank=mr)
         return sc.call(f'{ODE}.tdvp', Hop, x, H, steps, threshold=0, max_rank=sc.atom('rho', free=True))
     return l2.explore(repo, body, max_paths=5000)
 
@@ -72,13 +72,14 @@ def check(repo, tier):
         if d >= 2:
             grid.append(('tdvp2site', d, 1, False))
             grid.append(('tdvp2site', d, 1, True))
+            grid.append(('tdvp2site', d, 1, 'threshold 0'))
     grid.append(('tdvp1site', 3, 2, False))
     grid.append(('tdvp2site', 3, 2, False))
     for d in ((2, 3) if tier == 'quick' else (2, 3, 4)):
         grid.append(('tdvp', d, 1, True))
     for which, d, steps, capped in grid:
         entry = f'{ODE}.{which}'
-        scen0 = f'{which}(order={d}, steps={steps}{", max_rank=rho" if capped else ""})'
+        scen0 = f'{which}(order={d}, steps={steps}{", max_rank=rho" if capped else ""}{", threshold=0" if capped == "threshold 0" else ""})'
         paths = run_tdvp(repo, which, d, steps, capped=capped)
         for ch, sc, res, exc in paths:
             scen = scen0
